@@ -15,6 +15,74 @@ mod verif_harness {
     struct PlainSink;
     impl MetricSink for PlainSink { fn emit(&self, m: &str) -> io::Result<usize> { Ok(m.len()) } }
 
+    struct NeverSink;
+    impl MetricSink for NeverSink { fn emit(&self, _m: &str) -> io::Result<usize> { unreachable!("wrapped sink entered on the caller path") } }
+
+    #[kani::proof]
+    #[kani::unwind(5)]
+    fn c09_stop_enqueues_marker() {
+        let n: usize = kani::any();
+        kani::assume(n <= 2);
+        let w = Worker::new(Some(2), |_v: String| {});
+        if n >= 1 { let _ = w.submit(String::new()); }
+        if n >= 2 { let _ = w.submit(String::new()); }
+        w.stop();
+        // contract: the marker is in the queue after stop(), whatever the occupancy
+        let mut found = false;
+        let mut k = 0;
+        while k < 3 { match w.receiver.try_recv() { Ok(None) => { found = true; } _ => {} } k += 1; }
+        assert!(found);
+        std::mem::forget(w);
+    }
+
+    fn str_display_stub(s: &str, f: &mut fmt::Formatter<'_>) -> fmt::Result { f.write_str(s) }
+
+    #[kani::proof]
+    #[kani::unwind(5)]
+    fn c10_emit_ok_path() {
+        let worker = Arc::new(Worker::new(Some(1), |_v: String| {}));
+        let q = QueuingMetricSink { worker, sink: Arc::new(NeverSink) };
+        let r1 = q.emit("");
+        assert!(matches!(r1, Ok(0)));
+        assert!(q.submitted() == 1 && q.queued() == 1 && q.drained() == 0);
+        std::mem::forget(r1); std::mem::forget(q);
+    }
+
+    #[kani::proof]
+    #[kani::unwind(5)]
+    fn c10_emit_full_path() {
+        let worker = Arc::new(Worker::new(Some(0), |_v: String| {}));
+        let q = QueuingMetricSink { worker, sink: Arc::new(NeverSink) };
+        let r2 = q.emit("");
+        assert!(r2.is_err());
+        assert!(q.submitted() == 0 && q.queued() == 0);
+        std::mem::forget(r2); std::mem::forget(q);
+    }
+
+    #[kani::proof]
+    #[kani::unwind(5)]
+    #[kani::stub(<str as std::fmt::Display>::fmt, str_display_stub)]
+    fn c10_emit_never_enters_wrapped() {
+        let worker = Arc::new(Worker::new(Some(1), |_v: String| {}));
+        let q = QueuingMetricSink { worker, sink: Arc::new(NeverSink) };
+        let r1 = q.emit("");
+        let r2 = q.emit("");
+        assert!(r1.is_ok() && r1.unwrap() == 0);
+        assert!(r2.is_err());
+        assert!(q.submitted() == 1 && q.queued() == 1 && q.drained() == 0);
+        std::mem::forget(q);
+    }
+
+    #[kani::proof]
+    fn c15_queued_total() {
+        let st = WorkerStats::new();
+        let s: u64 = kani::any(); let d: u64 = kani::any();
+        st.submitted.store(s, Ordering::SeqCst); st.drained.store(d, Ordering::SeqCst);
+        let q = st.queued();
+        assert!(q == if s > d { s - d } else { 0 });
+        assert!(q <= s);
+    }
+
     #[kani::proof]
     #[kani::unwind(3)]
     fn q_build_only() {
